@@ -153,7 +153,7 @@ def check(case, ctx):
         ra, rb = nA.eval(xA), nB.eval(XB[i], pB)
         evA.append(ra)
         evB.append(rb)
-        if not close(ra["f"], rb["f"], rtol=1e-9, atol=1e-9):
+        if not close(ra["f"], rb["f"], rtol=1e-7, atol=1e-9):      # the decision vector is transported by least squares: ~1e-9 relative on it
             fails.append(Fail("objective", feats, {"free": ra["f"], "fixed": rb["f"], "c": c_i, "c0": c0_i}))
             break
         got = [float(ra[k].reshape(-1)[0]) for k in ("vT", "vt0", "vtf")]
